@@ -131,9 +131,54 @@ def build_primal(case):
         kw["face_x"] = np.array([c[0] for c in cen])
         kw["face_y"] = np.array([c[1] for c in cen])
         kw["face_z"] = np.array([c[2] for c in cen])
-    g = ux.Grid.from_topology(
-        np.array(lon, dtype=float), np.array(lat, dtype=float), hux.pad_table(case["faces"]), fill_value=FILL, **kw
-    )
+    prov = case.get("prov")
+    if prov is None:
+        g = ux.Grid.from_topology(
+            np.array(lon, dtype=float), np.array(lat, dtype=float), hux.pad_table(case["faces"]), fill_value=FILL, **kw
+        )
+        return ux, g, lon, lat, cen
+    # a scenario of DualProv.tla: provenance of nodes and centres, radius of the supplied Cartesian arrays
+    import xarray as xr
+
+    R = {"1": 1.0, "2": 2.0, "6371229": 6371229.0, "1/2": 0.5}[prov["radius"]]
+    if "nodes" in case:
+        from . import lattice
+
+        un = [lattice.unit(v) for v in case["nodes"]]
+    else:
+        un = [unit_of_lonlat(a, b) for a, b in zip(lon, lat)]
+    arr = {}
+    if prov["nodes"] in ("lonlat", "both"):
+        arr["node_lon"], arr["node_lat"] = np.array(lon, dtype=float), np.array(lat, dtype=float)
+    if prov["nodes"] in ("xyz", "both"):
+        for j, c in enumerate("xyz"):
+            arr["node_" + c] = np.array([R * u[j] for u in un])
+    if prov["centres"] in ("lonlat", "both"):
+        arr["face_lon"] = np.array([math.degrees(math.atan2(c[1], c[0])) for c in cen])
+        arr["face_lat"] = np.array([math.degrees(math.asin(max(-1.0, min(1.0, c[2])))) for c in cen])
+    if prov["centres"] in ("xyz", "both"):
+        for j, c in enumerate("xyz"):
+            arr["face_" + c] = np.array([R * q[j] for q in cen])
+    conn = hux.pad_table(case["faces"])
+    if prov["nodes"] != "xyz" and case.get("variant", 0) % 2 == 0:
+        extra = {k: v for k, v in arr.items() if k not in ("node_lon", "node_lat")}
+        g = ux.Grid.from_topology(arr["node_lon"], arr["node_lat"], conn, fill_value=FILL, **extra)
+    else:
+        ds = xr.Dataset()
+        for k, v in arr.items():
+            ds[k] = xr.DataArray(v, dims=["n_node" if k.startswith("node") else "n_face"])
+        ds["face_node_connectivity"] = xr.DataArray(
+            conn, dims=["n_face", "n_max_face_nodes"],
+            attrs={"cf_role": "face_node_connectivity", "_FillValue": FILL, "start_index": 0},
+        )  # fmt: skip
+        g = ux.Grid.from_dataset(ds, source_grid_spec="UGRID")
+    for op in prov.get("hist", []):
+        if op == "face_lon":
+            g.face_lon
+        elif op == "construct_face_centers":
+            g.construct_face_centers()
+        elif op == "normalize":
+            g.normalize_cartesian_coordinates()
     return ux, g, lon, lat, cen
 
 
